@@ -92,15 +92,15 @@ Proof. exact rename_commutes_lemma. Qed.
 (* The renamers of the three callers rename a reference only when its table matches: rec.X of an ACL rule
    belongs to the table of the rule's resource, user.A.X to the lookup table of attribute A, choice.X to the
    referenced table, and user.A itself is never renamed. *)
-Theorem C17_acl_renamer_exact : forall rs rule_table attr_tables ty name extra new,
-  acl_renamer rs rule_table attr_tables ty name extra = Some new ->
+Theorem C17_acl_renamer_exact : forall rs rule_table (attr_table : str -> option str) ty name extra new,
+  acl_renamer rs rule_table attr_table ty name extra = Some new ->
   (ty = RecCol /\ exists t, rule_table = Some t /\ renames_get rs t name = Some new) \/
-  (ty = UserAttrCol /\ exists a t, extra = Some a /\ assoc_str a attr_tables = Some t /\ renames_get rs t name = Some new).
+  (ty = UserAttrCol /\ exists a t, extra = Some a /\ attr_table a = Some t /\ renames_get rs t name = Some new).
 Proof.
   intros rs rt at' ty name extra new H. destruct ty; cbn in H; try discriminate.
   - left. split; [reflexivity|]. destruct rt; [eauto|discriminate].
   - right. split; [reflexivity|]. destruct extra as [a|]; [|discriminate].
-    destruct (assoc_str a at') as [t|] eqn:E; [|discriminate]. eauto.
+    destruct (at' a) as [t|] eqn:E; [|discriminate]. eauto.
 Qed.
 
 Theorem C17_dc_renamer_exact : forall rs ref_table self_table ty name extra new,
@@ -155,7 +155,7 @@ Qed.
 (* Regression example: the stored formula  rec.A ==  (not even a module: get_dollar_replacer raises), on which
    process_renames let the SyntaxError escape before fix commit 8212ac8, is returned unchanged. *)
 Example C17_regression_unparsable :
-  process_renames ACL (acl_renamer [(lit "T", lit "AA", lit "X")] (Some (lit "T")) []) (lit "rec.A ==") false [] None
+  process_renames ACL (acl_renamer [(lit "T", lit "AA", lit "X")] (Some (lit "T")) (fun _ => None)) (lit "rec.A ==") false [] None
   = PRText (lit "rec.A ==").
 Proof. reflexivity. Qed.
 
@@ -179,11 +179,11 @@ Definition ex17_ast : expr :=
 Example C17_nonvacuous :
   let rs := [(lit "T", lit "A", lit "Zed")] in
   undollar_text (lit "$A == rec.A") [0] = lit "rec.A == rec.A" /\
-  process_renames ACL (acl_renamer rs (Some (lit "T")) []) (lit "$A == rec.A") true [0] (Some ex17_ast)
+  process_renames ACL (acl_renamer rs (Some (lit "T")) (fun _ => None)) (lit "$A == rec.A") true [0] (Some ex17_ast)
     = PRText (lit "$Zed == rec.Zed") /\
-  process_renames ACL (acl_renamer rs (Some (lit "C")) []) (lit "$A == rec.A") true [0] (Some ex17_ast)
+  process_renames ACL (acl_renamer rs (Some (lit "C")) (fun _ => None)) (lit "$A == rec.A") true [0] (Some ex17_ast)
     = PRText (lit "$A == rec.A") /\
-  convert (rename_ast ACL (acl_renamer rs (Some (lit "T")) []) ex17_ast)
+  convert (rename_ast ACL (acl_renamer rs (Some (lit "T")) (fun _ => None)) ex17_ast)
     = Ok (TCmp OpEq (TAttr (TName (lit "rec")) (lit "Zed")) (TAttr (TName (lit "rec")) (lit "Zed"))) /\
   unparsable false None /\ unparsable true (Some (EUnsupported (1, 0) (lit "Lambda"))).
 Proof.
@@ -205,5 +205,102 @@ Example C17_text_patch_example :
   let ps := [Build_patch 1 2 (lit "Zed"); Build_patch 10 11 (lit "Zed")] in
   wf_patches 0 text ps /\
   spec_apply 0 text ps = lit "$" ++ lit "Zed" ++ lit " == rec." ++ lit "Zed" ++ [] /\
-  rename_patches (acl_renamer [(lit "T", lit "A", lit "Zed")] (Some (lit "T")) []) [0] (collect ACL ex17_ast) = ps.
+  rename_patches (acl_renamer [(lit "T", lit "A", lit "Zed")] (Some (lit "T")) (fun _ => None)) [0] (collect ACL ex17_ast) = ps.
 Proof. cbv zeta. split; [cbn; lia|]. split; vm_compute; reflexivity. Qed.
+
+(* ------------------------------------------------------------------------------------------------- *)
+(* 6. The code itself.  GristGen.Predicate_gen is generated by harness/pf2v.py on every run from the three
+   visit_Attribute methods (acl.py, dropdown_condition.py, trigger_expression.py) and the TreeConverter methods they
+   inherit; gen_visit (Some k) is the collector's visit with self.entities as state.  Bridge: on every AST the
+   harness can produce, the generated collector returns the serialised tree and has appended exactly the model's
+   entities (in order), or fails with the model's SyntaxError; it never raises another exception. *)
+Require Import Grist.Model.PredVisit GristGen.Predicate_gen Grist.Proofs.Predicate_bridge.
+
+Theorem C17_code_bridge : forall k e, wf_expr e = true -> gen_visit (Some k) e [] = lift_visit [] (visit k e).
+Proof. exact gen_collect_bridge. Qed.
+
+(* collect_exact about the generated code: the entities it appends are exactly the classified Attribute nodes *)
+Theorem C17_code_collect_exact : forall k e v ents,
+  wf_expr e = true -> gen_visit (Some k) e [] = GOk (v, ents) ->
+  ents = map gent_of (collect k e) /\ exists t, convert e = Ok t /\ v = to_py t.
+Proof.
+  intros k e v ents Hwf H. rewrite (gen_collect_bridge k e Hwf) in H.
+  destruct (visit k e) as [[t es]|err] eqn:E; [|discriminate]. cbn in H. inversion H; subst.
+  pose proof (visit_collect k e (t, es) E) as Hc. cbn in Hc. subst es.
+  split; [reflexivity|]. exists t. split; [exact (visit_ok_convert k e t _ E) | reflexivity].
+Qed.
+
+(* ... and it fails exactly when the converter rejects the expression (then process_renames leaves the text alone) *)
+Theorem C17_code_rejects_iff : forall k e,
+  wf_expr e = true -> (exists err, gen_visit (Some k) e [] = GFail err) <-> is_ok (convert e) = false.
+Proof.
+  intros k e Hwf. rewrite (gen_collect_bridge k e Hwf), <- (visit_is_ok k e).
+  destruct (visit k e) as [[t es]|err]; cbn; split; intros H; try discriminate; eauto.
+  destruct H; discriminate.
+Qed.
+
+Example C17_code_nonvacuous :
+  wf_expr ex17_ast = true /\
+  gen_visit (Some ACL) ex17_ast [] =
+    GOk (to_py (TCmp OpEq (TAttr (TName (lit "rec")) (lit "A")) (TAttr (TName (lit "rec")) (lit "A"))),
+         [(lit "recCol", 4, lit "A", None); (lit "recCol", 13, lit "A", None)]) /\
+  gen_visit (Some ACL) (chain (EName (1, 0) (lit "user")) [(lit "Cust", 5); (lit "Name", 10)]) [] =
+    GOk (to_py (TAttr (TAttr (TName (lit "user")) (lit "Cust")) (lit "Name")),
+         [(lit "userAttr", 5, lit "Cust", None); (lit "userAttrCol", 10, lit "Name", Some (PLeaf (CStr (lit "Cust"))))]).
+Proof. vm_compute. repeat split; reflexivity. Qed.
+
+(* ------------------------------------------------------------------------------------------------- *)
+(* 7. acl.perform_acl_rule_renames itself.  GristGen.PerformAcl_gen.gen_perform_acl is generated from the source by
+   harness/pr2v.py on every run (its three loops, the try/except, the dict, the closure); JSON access, the table of a
+   resource, process_renames and parse_predicate_formula_json are parameters (acl_prims).  Bridge: for all rows,
+   renames and primitives the generated function is the model; in particular every formula is rewritten with the
+   user-attribute dict built from ALL rules (two passes), wherever the defining rule sits. *)
+Require Import GristGen.PerformAcl_gen Grist.Proofs.PerformAcl_bridge.
+
+Theorem C17_code_perform_acl_bridge : forall P rs resources rules,
+  gen_perform_acl P rs resources rules = perform_acl_model P rs resources rules.
+Proof. exact gen_perform_acl_bridge. Qed.
+
+(* the resource column lists: exactly the C17_acl_colids_rename updates, in row order *)
+Theorem C17_code_acl_resources : forall P rs resources rules,
+  fst (gen_perform_acl P rs resources rules) =
+  flat_map (fun r => match rename_colids rs (res_tableId r) (res_colIds r) with
+                     | Some new => [(r, [("colIds"%string, new)])]
+                     | None => []
+                     end) resources.
+Proof. intros. rewrite gen_perform_acl_bridge. reflexivity. Qed.
+
+(* the rules: first the lookup-column updates, then the formula updates, each formula renamed by the renamer of
+   its own resource table and of the COMPLETE attribute dict *)
+Theorem C17_code_acl_rules : forall P rs resources rules,
+  snd (gen_perform_acl P rs resources rules) =
+  flat_map (acl_lookup_update P rs) rules ++ flat_map (acl_formula_update P rs (acl_attr_tables P rules)) rules.
+Proof. intros. rewrite gen_perform_acl_bridge. reflexivity. Qed.
+
+(* the renamer handed to process_renames is the model renamer of section 2 (acl_renamer), read on NamedEntity *)
+Theorem C17_code_acl_subject_renamer : forall rs t d ty name extra,
+  (ty = UserAttrCol -> extra <> None) ->
+  acl_subject_renamer rs t d (ent_type_name ty, name, extra) =
+  acl_renamer rs (Some t) (fun a => odict_get d (Some a)) ty name extra.
+Proof.
+  intros rs t d ty name extra Hx. unfold acl_subject_renamer, s_type, s_name, s_extra. cbn [fst snd].
+  destruct ty; cbn; try reflexivity.
+  destruct extra as [a|]; [|destruct (Hx eq_refl); reflexivity]. cbn.
+  destruct (odict_get d (Some a)); reflexivity.
+Qed.
+
+Example C17_code_two_pass_example :
+  (* rule 1 uses user.Cust.Name, rule 2 (stored AFTER it) defines Cust with lookup table C; renaming C.Name *)
+  let P := {| info := list (string * str);
+              json_loads := fun s => if str_eqb s (lit "J") then Some [("name"%string, lit "Cust"); ("tableId"%string, lit "C")] else None;
+              info_get := fun i k => match find (fun kv => String.eqb (fst kv) k) i with Some kv => Some (snd kv) | None => None end;
+              info_set := fun i k v => (k, v) :: i;
+              json_dumps := fun _ => lit "dumped";
+              resource_tableId := fun _ => lit "T";
+              process_renames_acl := fun f r => match r (lit "userAttrCol", lit "Name", Some (lit "Cust")) with Some n => n | None => f end;
+              parse_json := fun s => s |} in
+  let rules := [{| rule_resource := 1; rule_aclFormula := lit "user.Cust.Name"; rule_userAttributes := [] |};
+                {| rule_resource := 1; rule_aclFormula := []; rule_userAttributes := lit "J" |}] in
+  snd (gen_perform_acl P [(lit "C", lit "Name", lit "Title")] [] rules) =
+  [(nth 0 rules (Build_rule 0 [] []), [("aclFormula"%string, lit "Title"); ("aclFormulaParsed"%string, lit "Title")])].
+Proof. vm_compute. reflexivity. Qed.
